@@ -28,8 +28,8 @@ MIN_OUTCOMES = {t: ["value-changed-notified", "cache-hit", "cache-refreshed",
                 for t in ("quick", "thorough")}
 TIMEOUT = {"quick": 1200, "thorough": 7200}
 
-PROPS = ["total", "total_u", "first", "own", "deep", "msum", "ssum"]
-CACHED = ["total", "first", "own", "deep", "msum", "ssum"]
+PROPS = ["total", "total_u", "first", "own", "deep", "msum", "ssum", "cset"]
+CACHED = ["total", "first", "own", "deep", "msum", "ssum", "cset"]
 
 
 def _count(obj, name):
@@ -68,6 +68,17 @@ class PNode(HasTraits):
     deep = Property(Int, observe="child.kids.items.value")
     msum = Property(Int, observe="kmap.items.value")
     ssum = Property(Int, observe="kset.items.value")
+    #: cached AND settable (the setter writes through to the dependency)
+    cset = Property(Int, observe="value")
+
+    @cached_property
+    def _get_cset(self):
+        _count(self, "cset")
+        return self.value + 100
+
+    def _set_cset(self, v):
+        self.value = v - 100
+
     #: never given a named handler: only anytrait listeners hear about it
     alone = Property(Int, observe="value")
 
@@ -133,6 +144,8 @@ def recompute(o, name):
         return child.value if child is not None else -1
     if name == "own":
         return o.value * 2
+    if name == "cset":
+        return o.value + 100
     if name == "deep":
         if child is None:
             return -1
@@ -189,13 +202,15 @@ def menu():
     evs += G.event_menu(["kmap", "kset"], idx=(0,))
     evs += [("set_value", i) for i in range(3)]
     evs += [("set_trigger", i) for i in range(2)]
+    evs += [("set_cset", i) for i in range(2)]
     evs += [("read_all",), ("read_all_root",)]
     evs += [("copy", how) for how in ("pickle", "deepcopy", "clone")]
     return evs
 
 
 def enabled(w, ev):
-    if ev[0] in ("set_value", "read_all", "read_all_root", "set_trigger"):
+    if ev[0] in ("set_value", "read_all", "read_all_root", "set_trigger",
+                 "set_cset"):
         return True
     if ev[0] == "copy":
         return w.copied is None
@@ -206,6 +221,8 @@ def apply(w, ev):
     k = ev[0]
     if k == "set_value":
         w.pool[ev[1]].value += 10
+    elif k == "set_cset":
+        w.pool[ev[1]].cset = w.pool[ev[1]].value + 100 + 7
     elif k == "set_trigger":
         w.pool[ev[1]].trig0 += 1
         w.pool[ev[1]].atrigger += 1
